@@ -67,6 +67,8 @@ func VfC04_Types() {
 	el := m.Globals[1].ContentType.(*types.ArrayType).ElemType.(*types.PointerType).ElemType
 	vfAssert("C04.types.nested-use-is-def", el == types.Type(tb))
 	vfAssert("C04.types.no-placeholder", vfAnd(len(ta.Fields) == 3, len(tb.Fields) == 1))
+	closed, _ := hClosed(m)
+	vfAssert("C04.types.closed", closed)
 }
 
 // VfC04_Globals: globals initialised with each other's addresses, alias,
@@ -106,6 +108,8 @@ func VfC04_Globals() {
 	call := m.Funcs[1].Blocks[0].Insts[0].(*ir.InstCall)
 	vfAssert("C04.globals.callee-is-def", call.Callee == value.Value(m.Funcs[0]))
 	vfAssert("C04.globals.parents", vfAnd(m.Funcs[0].Parent == m, m.Funcs[1].Parent == m))
+	closed, _ := hClosed(m)
+	vfAssert("C04.globals.closed", closed)
 }
 
 // VfC04_Locals: phi and branch cycles, use before definition in layout
@@ -162,6 +166,8 @@ func VfC04_Locals() {
 		}
 	}
 	vfAssert("C04.locals.parents-agree-with-containment", ok)
+	closed, _ := hClosed(m)
+	vfAssert("C04.locals.closed", closed)
 }
 
 // VfC04_TypeAlias: `%b = type %a` - the alias is the aliased definition and
@@ -226,6 +232,8 @@ func VfC04_Unnamed() {
 	a1 := f1.Blocks[1].Insts[0].(*ir.InstAdd)
 	vfAssert("C04.unnamed.locals-scoped", vfAnd(a0.X == value.Value(f0.Params[0]), a1.X == value.Value(f1.Params[0])))
 	vfAssert("C04.unnamed.global-ref", m.Globals[2].Init == constant.Constant(m.Globals[0]))
+	closed, _ := hClosed(m)
+	vfAssert("C04.unnamed.closed", closed)
 }
 
 // VfC04_UseListOrder: the value of a module-level use-list order directive,
@@ -258,4 +266,84 @@ func VfC04_UseListOrder() {
 		vfAssert("C04.uselistorder.blockaddress-block-is-def", vfAnd(ba.Block == value.Named(blk), ba.Func == constant.Constant(m.Funcs[0])))
 		vfAssert("C04.uselistorder.no-placeholder", ba.Block.(*ir.Block).Parent == m.Funcs[0])
 	}
+	closed, _ := hClosed(m)
+	vfAssert("C04.uselistorder.closed", closed)
+}
+
+// VfC04_Closure: reference-rich templates (debug-info graph with cycles and a
+// local value used as metadata; exception handling and indirect branches with
+// blockaddress operands; module-level constants, comdats, attribute groups,
+// prefix/prologue/personality; named types throughout a function).  After an
+// accepted parse the whole object graph is walked (hClosed): every reference
+// is the listed definition.  Names symbolic.
+//
+//vf:unwind 2000
+//vf:steps 400000000
+//vf:shards 4
+func VfC04_Closure() {
+	a := hLetterIn("a", 'a', 'e')
+	l := hLetterIn("l", 'p', 't')
+	var src string
+	switch vfChoice("template", 4) {
+	case 0:
+		src = "define void @" + a + "(i32 %x) !dbg !4 {\n" + l + ":\n" +
+			"\tcall void @llvm.dbg.value(metadata i32 %x, metadata !5, metadata !DIExpression()), !dbg !6\n" +
+			"\tbr label %done, !dbg !6\ndone:\n\tret void\n}\n" +
+			"declare void @llvm.dbg.value(metadata, metadata, metadata)\n" +
+			"@gv = global i32 0, !dbg !9\n" +
+			"!llvm.dbg.cu = !{!0}\n!nm = !{!1, !2}\n" +
+			"!0 = distinct !DICompileUnit(language: DW_LANG_C99, file: !1, producer: \"p\", emissionKind: FullDebug, globals: !11)\n" +
+			"!1 = !DIFile(filename: \"a.c\", directory: \"/\")\n" +
+			"!2 = !{!3}\n!3 = distinct !{!2, i8* blockaddress(@" + a + ", %" + l + "), i32* @gv}\n" +
+			"!4 = distinct !DISubprogram(name: \"f\", scope: !1, file: !1, line: 1, type: !7, unit: !0, retainedNodes: !2)\n" +
+			"!5 = !DILocalVariable(name: \"x\", arg: 1, scope: !4, file: !1, line: 1, type: !8)\n" +
+			"!6 = !DILocation(line: 1, column: 1, scope: !4)\n" +
+			"!7 = !DISubroutineType(types: !2)\n" +
+			"!8 = !DIBasicType(name: \"int\", size: 32, encoding: DW_ATE_signed)\n" +
+			"!9 = !DIGlobalVariableExpression(var: !10, expr: !DIExpression())\n" +
+			"!10 = distinct !DIGlobalVariable(name: \"gv\", scope: !0, file: !1, line: 1, type: !8, isLocal: false, isDefinition: true)\n" +
+			"!11 = !{!9}\n"
+	case 1:
+		src = "declare i32 @pers(...)\ndeclare void @g()\n" +
+			"@tbl = global [2 x i8*] [i8* blockaddress(@" + a + ", %" + l + "), i8* blockaddress(@" + a + ", %lp)]\n" +
+			"define i32 @" + a + "(i32 %x, i8* %tt) personality i8* bitcast (i32 (...)* @pers to i8*) {\nentry:\n" +
+			"\tswitch i32 %x, label %" + l + " [ i32 1, label %inv\n i32 2, label %ib ]\n" +
+			l + ":\n\t%ph = phi i8* [ blockaddress(@" + a + ", %" + l + "), %entry ], [ %sel, %ib2 ]\n\tret i32 0\n" +
+			"inv:\n\tinvoke void @g() to label %" + l + "2 unwind label %lp\n" +
+			l + "2:\n\tret i32 1\n" +
+			"lp:\n\t%e = landingpad { i8*, i32 } cleanup\n\tresume { i8*, i32 } %e\n" +
+			"ib:\n\t%sel = select i1 true, i8* blockaddress(@" + a + ", %" + l + "), i8* %tt\n\tbr label %ib2\n" +
+			"ib2:\n\tindirectbr i8* %sel, [ label %" + l + ", label %" + l + "2 ]\n}\n"
+	case 2:
+		src = "$" + a + " = comdat any\n%T = type { i32, %T*, void ()* }\n" +
+			"@" + a + " = global %T { i32 1, %T* @" + a + ", void ()* @" + l + " }, comdat\n" +
+			"@arr = global [2 x { i8*, i64 }] [{ i8*, i64 } { i8* bitcast (%T* @" + a + " to i8*), i64 ptrtoint (i32* getelementptr inbounds (%T, %T* @" + a + ", i32 0, i32 0) to i64) }, { i8*, i64 } zeroinitializer]\n" +
+			"@al = alias %T, %T* @" + a + "\n@al2 = alias i32, getelementptr inbounds (%T, %T* @al, i32 0, i32 0)\n" +
+			"declare void ()* @res()\n@ifn = ifunc void (), void ()* ()* @res\n" +
+			"define void @" + l + "() #0 comdat($" + a + ") prefix i32 7 prologue i8 1 {\n\tcall void @ifn()\n\tret void\n}\n" +
+			"declare void @decl() #0\nattributes #0 = { nounwind }\n" +
+			"uselistorder %T* @" + a + ", { 1, 0, 2, 3, 4 }\n"
+	default:
+		src = "%" + a + " = type { i32, %" + l + "* }\n%" + l + " = type { %" + a + ", [2 x %" + a + "*] }\n" +
+			"declare %" + a + "* @mk(%" + l + "* byval(%" + l + "))\n" +
+			"define %" + a + " @f(%" + a + "* %p, <2 x %" + l + "*> %v) {\n" +
+			"\t%s = alloca %" + l + "\n" +
+			"\t%g = getelementptr %" + l + ", %" + l + "* %s, i32 0, i32 1, i32 1\n" +
+			"\t%ld = load %" + a + "*, %" + a + "** %g\n" +
+			"\t%c = call %" + a + "* @mk(%" + l + "* byval(%" + l + ") %s)\n" +
+			"\t%e = extractelement <2 x %" + l + "*> %v, i32 0\n" +
+			"\t%bc = bitcast %" + l + "* %e to { %" + a + ", [2 x %" + a + "*] }*\n" +
+			"\t%r = load %" + a + ", %" + a + "* %c\n" +
+			"\tret %" + a + " %r\n}\n"
+	}
+	m, err := ParseString("t.ll", src)
+	vfReach("C04.closure")
+	vfObserveStr("src", src)
+	vfAssert("C04.closure.accepted", err == nil)
+	if err != nil {
+		return
+	}
+	ok, why := hClosed(m)
+	vfObserveStr("why", why)
+	vfAssert("C04.closure.every-reference-is-the-listed-definition", ok)
 }
